@@ -5,6 +5,8 @@ package gnmi
 import (
 	"context"
 
+	"github.com/gogo/protobuf/proto"
+
 	"github.com/onosproject/onos-api/go/onos/config/admin"
 	configapi "github.com/onosproject/onos-api/go/onos/config/v2"
 	"github.com/onosproject/onos-config/internal/verifrt"
@@ -121,13 +123,23 @@ func VerifC13Set() {
 		prefixTarget = ""
 	}
 	extKind := verifrt.NondetInt("ext")
-	verifrt.Assume(extKind >= 0 && extKind <= 2)
+	verifrt.Assume(extKind >= 0 && extKind <= 4)
 	if extKind == 1 {
 		req.Extension = []*gnmi_ext.Extension{{Ext: &gnmi_ext.Extension_RegisteredExt{RegisteredExt: &gnmi_ext.RegisteredExtension{
 			Id: configapi.TransactionStrategyExtensionID, Msg: []byte{0xff}}}}}
 	} else if extKind == 2 {
 		req.Extension = []*gnmi_ext.Extension{{Ext: &gnmi_ext.Extension_RegisteredExt{RegisteredExt: &gnmi_ext.RegisteredExtension{
 			Id: configapi.TargetVersionOverridesID, Msg: []byte{0xff}}}}}
+	} else if extKind >= 3 {
+		// a well-formed override of t1's model: version 2 has no plugin (3), version 1 is the registered one (4)
+		ver := configapi.TargetVersion("1")
+		if extKind == 3 {
+			ver = "2"
+		}
+		ov := &configapi.TargetVersionOverrides{Overrides: map[string]*configapi.TargetTypeVersion{"t1": {TargetType: "ty", TargetVersion: ver}}}
+		b, _ := proto.Marshal(ov)
+		req.Extension = []*gnmi_ext.Extension{{Ext: &gnmi_ext.Extension_RegisteredExt{RegisteredExt: &gnmi_ext.RegisteredExtension{
+			Id: configapi.TargetVersionOverridesID, Msg: b}}}}
 	}
 	nops := verifrt.Fork("nops", 3) // 0, 1 or 2 operations
 	// split = 1: the first element of every operation path travels in the request prefix ("the effective path is the
@@ -176,7 +188,8 @@ func VerifC13Set() {
 	verifrt.Cover("answered")
 
 	// ---- reference resolver
-	ok := extKind == 0 && nops > 0
+	// (an override naming a model version without a plugin makes t1 a target without a model: refused)
+	ok := (extKind == 0 || extKind == 4) && nops > 0
 	var effT [2]string
 	for k := 0; k < nops; k++ {
 		effT[k] = c13Target(opTgt[k])
